@@ -26,6 +26,11 @@ def one(i):
         subprocess.run(["git", "-C", "/repo", "worktree", "add", "-q", "--detach", rw, "HEAD"], check=True, capture_output=True)
         a = subprocess.run(["git", "-C", rw, "apply", os.path.join(d, "patch.diff")], capture_output=True)
         if a.returncode != 0:
+            # the change was written against an earlier HEAD: three-way merge as long as it is clean
+            a = subprocess.run(["git", "-C", rw, "apply", "-3", os.path.join(d, "patch.diff")], capture_output=True)
+            if a.returncode == 0 and subprocess.run(["git", "-C", rw, "diff", "--name-only", "--diff-filter=U"], capture_output=True).stdout.strip():
+                a = subprocess.CompletedProcess(a.args, 1, b"", b"three-way merge with conflicts")
+        if a.returncode != 0:
             json.dump(dict(id=i, applies=False), open(os.path.join(d, "result.json"), "w"))
             return "%s: patch does not apply to the current HEAD (%s)" % (i, a.stderr.decode()[:120].replace("\n", " "))
         subprocess.run(["rsync", "-a", "--exclude", ".git", "--exclude", "replays", V + "/", vw + "/"], check=True)
